@@ -1302,11 +1302,19 @@ impl TypeChecker {
                 self.type_info.unionfind.set(b, Name(name.clone()));
                 Name(name)
             }
+            // Binding a variable to a type that contains that variable
+            // would create an infinite type (occurs check).
             (Var(a), b) => {
+                if self.occurs(a, &b) {
+                    return None;
+                }
                 self.type_info.unionfind.set(a, b.clone());
                 b.clone()
             }
             (a, Var(b)) => {
+                if self.occurs(b, &a) {
+                    return None;
+                }
                 self.type_info.unionfind.set(b, a.clone());
                 a.clone()
             }
@@ -1366,6 +1374,28 @@ impl TypeChecker {
                 return None;
             }
         })
+    }
+
+    /// Whether the type variable `var` occurs in `ty` (after resolving the
+    /// variables in `ty`).
+    fn occurs(&mut self, var: usize, ty: &Type) -> bool {
+        match self.resolve_type(ty) {
+            Type::Var(x) | Type::IntVar(x, _) | Type::FloatVar(x) => x == var,
+            Type::RecordVar(x, fields) => {
+                x == var || fields.iter().any(|(_, t)| self.occurs(var, t))
+            }
+            Type::Record(fields) => {
+                fields.iter().any(|(_, t)| self.occurs(var, t))
+            }
+            Type::Function(params, ret) => {
+                params.iter().any(|t| self.occurs(var, t))
+                    || self.occurs(var, &ret)
+            }
+            Type::Name(name) => {
+                name.arguments.iter().any(|t| self.occurs(var, t))
+            }
+            Type::ExplicitVar(_) | Type::Unit | Type::Never => false,
+        }
     }
 
     fn unify_intvars(
